@@ -548,6 +548,16 @@ def monitor_c15(sc, obs):
                 _bad(v, 'C15/supplied-count', 'op %d: source %d reports %d produced parts, %d supplied_new_part records' % (i, d, e['produced'], counts[(10, d)]))
             if e['kind'] == 6 and not has_batches and counts[(6, d)] != e['received']:
                 _bad(v, 'C15/received-count', 'op %d: sink %d reports %d received parts, %d received_part records' % (i, d, e['received'], counts[(6, d)]))
+        # an enabled event trace lists exactly the executed events, in execution order, under consecutive indices; the file written at
+        # the end of a run has as many entries
+        tr = o.get('trace')
+        if tr is not None:
+            if not tr['keys_ok'] or tr['n'] != tr['popped'] or not tr['same']:
+                _bad(v, 'C15/event-trace', 'op %d %s (t=%d): the event trace has %d entries%s, %d events were taken off the queue while tracing was on%s' % (
+                    i, o['op'], o['now'], tr['n'], '' if tr['keys_ok'] else ' (indices not consecutive)', tr['popped'],
+                    '' if tr['same'] or tr['n'] != tr['popped'] else ' (times / asset ids differ)'))
+            elif o['op'][0] == 'run' and tr['exported'] is not None and tr['exported'] != tr['n']:
+                _bad(v, 'C15/event-trace', 'op %d %s: the exported trace file has %d entries, the trace %d' % (i, o['op'], tr['exported'], tr['n']))
         # exactly one enter-queue record per accepted work order; started = records 3, finished = records 4, never more than accepted
         for m, e in o.get('maints', {}).items():
             if counts[(2, m)] != e['accepted']:
